@@ -337,6 +337,12 @@ func determinism(t *testing.T, l core.Lens, job *Job, emit func(rec)) {
 			classes = append(classes, v.Class+"|"+v.Key)
 		}
 		pb, _ := json.Marshal(plan)
+		if d := os.Getenv("VERIF_DUMP_DIR"); d != "" {
+			// debugging aid: the generated plan as a replay file (./check.sh replay <file>, VERIF_TRACE=1)
+			b, _ := json.MarshalIndent(ReplayFile{Plan: plan, EventHash: fmt.Sprintf("%016x", res.Hash)}, "", " ")
+			os.MkdirAll(d, 0755)
+			os.WriteFile(filepath.Join(d, fmt.Sprintf("%s-%d.json", job.Property, idx)), b, 0644)
+		}
 		emit(rec{"type": "fp", "index": idx, "hash": fmt.Sprintf("%016x", res.Hash), "abstract": fmt.Sprintf("%016x", res.Abstract),
 			"classes": classes, "plan_hash": fmt.Sprintf("%016x", hashBytes(pb)), "steps": res.Steps})
 	}
